@@ -588,7 +588,10 @@ def report_violation(c, binp, g, off, ln, cmn, ops, cap, why):
                               "pattern and the variant are decoded by harness/h_c07 in one fresh process; ops: "
                               "'p <i|f> <samples> <no_search>', 'q hyp|seg|align')"}
     replay.update(info)
-    c.violation(replay, visible, finding_key=key)
+    sig = (g["name"], off, ln, tuple(small), kind, REF_LAST, REF_NOSEARCH)
+    if sig not in STATE.setdefault("reported", set()):
+        STATE["reported"].add(sig)
+        c.violation(replay, visible, finding_key=key)
     return kind, key
 
 
@@ -801,7 +804,7 @@ def check(c):
     cap = 32767 if d9 else 10 ** 9
     stats = new_stats()
     stats["d9_stale_assert_present"] = d9
-    STATE["tie_failures"], STATE["oracle_failed"] = 0, False
+    STATE["tie_failures"], STATE["oracle_failed"], STATE["reported"] = 0, False, set()
     allok = True
     # ---- corpus first
     ncorp = 0
@@ -836,7 +839,8 @@ def check(c):
                 break
             off = 0
             cmn = c.rng.choice(CMNS)
-            variants = [("end-edge one call", [f"p i {min(ln, cap)} 0"] + ([f"p i {ln - cap} 0"] if ln > cap else []))]
+            one = ("end-edge one call", [f"p i {min(ln, cap)} 0"] + ([f"p i {ln - cap} 0"] if ln > cap else []))
+            variants = []
             for csz in ([1024] if c.tier == "quick" else [1024, 2048, 160, 4000]):
                 variants.append((f"end-edge {csz}-sample chunks",
                                  [f"p {'f' if c.rng.chance(0.5) else 'i'} {min(csz, ln - i)} 0" for i in range(0, ln, csz)]))
@@ -845,6 +849,8 @@ def check(c):
             if c.tier != "quick":
                 variants.append(("end-edge mixed", gen_pattern(c.rng, ln, P, cap, "mixed")))
                 variants.append(("end-edge queries", gen_pattern(c.rng, ln, P, cap, "queries")))
+                c.rng.shuffle(variants)          # which variant meets the untouched buffer size varies
+            variants.append(one)                 # (a first call of more than 128 frames grows the buffer differently: last)
             for kind, ops in variants:
                 note_pattern(stats, P, kind.split(" ")[0], ops, ln)
                 distinct.add(hash((g["name"], off, ln, cmn, tuple(ops), "edge")))
